@@ -20,6 +20,7 @@ KrChecks(e) ==
   LET toks == Toks(e) IN
   Flag(Class(toks) = e.class, "TOOL_class")
   \cup Flag(~e.panic, "C17_parser_panicked")
+  \cup Flag(~e.panic, "C09_panic_or_abort")            \* the same observation, reported by C09 on its own run of these texts
   \cup Flag(MustReject(toks) => ~e.accepted, "C17_accepted_incomplete_or_duplicate_keyring")
   \cup Flag(MustAccept(toks) => e.accepted, "C17_rejected_tool_written_keyring")
   \cup Flag((e.accepted /\ Unambiguous(toks)) =>
